@@ -10,8 +10,8 @@ ASSUME = ["binary levels and left-associativity are taken from the statement; th
 
 
 # the same print/parse/read-back oracle interpreted by Miri (parser sink + ast accessors over the syntax tree)
-MIRI = {"quick": ["--stride2", "4000", "--stride3", "400", "--random", "800"],
-        "thorough": ["--stride2", "200", "--stride3", "20", "--random", "12000"], "shards": 16}
+MIRI = {"quick": ["--random", "480", "--corpusfiles", "1"],
+        "thorough": ["--random", "4800", "--corpusfiles", "2"], "shards": 16}
 
 
 def run(tier, seed):
